@@ -80,7 +80,7 @@ impl Registry {
         }
     }
 
-    fn canonicalize_exact(&self, name: &str) -> Option<String> {
+    fn canonicalize_exact(&self, name: &str, seen: &mut BTreeSet<String>) -> Option<String> {
         if let Some(v) = self.base_unit_long_names.get(name) {
             return Some(v.clone());
         }
@@ -93,8 +93,15 @@ impl Registry {
             return None;
         }
         if let Some(expr) = self.definitions.get(name) {
-            if let Expr::Unit { ref name } = *expr {
-                if let Some(canonicalized) = self.canonicalize(&*name) {
+            if let Expr::Unit { name: ref alias } = *expr {
+                // A definition file that failed to load can leave an
+                // alias cycle behind, don't follow it forever.
+                if alias == name || seen.contains(alias) {
+                    return Some(name.to_owned());
+                }
+                seen.insert(name.to_owned());
+                let name = alias;
+                if let Some(canonicalized) = self.canonicalize_seen(&*name, seen) {
                     return Some(canonicalized);
                 } else {
                     return Some(name.clone());
@@ -107,13 +114,13 @@ impl Registry {
         None
     }
 
-    fn canonicalize_with_prefix(&self, name: &str) -> Option<String> {
-        if let Some(v) = self.canonicalize_exact(name) {
+    fn canonicalize_with_prefix(&self, name: &str, seen: &mut BTreeSet<String>) -> Option<String> {
+        if let Some(v) = self.canonicalize_exact(name, seen) {
             return Some(v);
         }
         for &(ref prefix, ref value) in &self.prefixes {
             if let Some(name) = name.strip_prefix(prefix) {
-                if let Some(canonicalized) = self.canonicalize_exact(name) {
+                if let Some(canonicalized) = self.canonicalize_exact(name, seen) {
                     // Prefixes don't stack, so an alias that expands to a
                     // prefixed unit (click -> kilometer) is kept as is.
                     let canonicalized = if self.lookup_exact(&canonicalized).is_some() {
@@ -142,13 +149,17 @@ impl Registry {
     /// * `mm` -> `millimeter` (prefixes are converted to long form)
     /// * `micron` -> `micrometer` (aliases are expanded)
     pub fn canonicalize(&self, name: &str) -> Option<String> {
-        let res = self.canonicalize_with_prefix(name);
+        self.canonicalize_seen(name, &mut BTreeSet::new())
+    }
+
+    fn canonicalize_seen(&self, name: &str, seen: &mut BTreeSet<String>) -> Option<String> {
+        let res = self.canonicalize_with_prefix(name, seen);
         if res.is_some() {
             return res;
         }
 
         if let Some(name) = name.strip_suffix('s') {
-            self.canonicalize_with_prefix(name)
+            self.canonicalize_with_prefix(name, seen)
         } else {
             None
         }
